@@ -383,6 +383,13 @@ func (MonC15) State(x *Exec) *Violation {
 			return v
 		}
 	}
+	if ap, ok := d.(interface{ AliasProbe() }); ok && u.KeyType == "[]byte" {
+		if p := safely(ap.AliasProbe); p == "" {
+			if v := check("Search/Prefix/Range whose arguments are sub-slices of keys the tree returned (partial-path arguments)"); v != nil {
+				return v
+			}
+		}
+	}
 	// no-op updates
 	absent := append(append([]int{}, u.Free...), u.DelExtra...)
 	for _, k := range absent {
